@@ -461,6 +461,21 @@ func (c *stepCtx) oracleC12() {
 			fmt.Sprintf("history: %s\nimplementation returned %v, reference %q\ndifferences (implementation vs reference):\n  %s", c.hist(), c.err, c.reason, strings.Join(detail, "\n  ")))
 		return
 	}
+	// what the call removed or moved away must be gone for lookups too, not only for listings from the root
+	inModel := map[string]bool{}
+	for _, e := range modelTree(c.m) {
+		inModel[e.Path] = true
+	}
+	for _, e := range c.preTree {
+		if inModel[e.Path] {
+			continue
+		}
+		if _, err := c.st.AFS.Stat(e.Path); err == nil {
+			c.viol("C12", fmt.Sprintf("C12|removed-entry-still-found|%s", c.shape),
+				fmt.Sprintf("history: %s\nimplementation returned %v; %s is gone according to the reference and is no longer listed, but Stat still finds it", c.hist(), c.err, e.Path))
+			break
+		}
+	}
 	if c.rebuilt != nil {
 		t := rig.Walk(c.rebuilt.AFS, "/")
 		vsync.Quiesce()
